@@ -1222,3 +1222,119 @@ pub fn check_pinned_primitives(fname: &str, file: &syn::File) -> Vec<String> {
     }
     problems
 }
+
+// ---------------------------------------------------------------------- 32-bit-only code (C-PIN32)
+
+struct Dropped {
+    fns: Vec<String>,
+    count: HashMap<String, usize>,
+    out: Vec<(String, String)>,
+}
+
+impl Dropped {
+    fn add(&mut self, kind: &str, text: String) {
+        let f = self.fns.last().cloned().unwrap_or_default();
+        let n = self.count.entry(format!("{}:{}", f, kind)).or_insert(0);
+        self.out.push((format!("{}#{}{}", f, kind, n), text));
+        *n += 1;
+    }
+}
+
+impl<'ast> Visit<'ast> for Dropped {
+    fn visit_item_fn(&mut self, f: &'ast syn::ItemFn) {
+        self.fns.push(f.sig.ident.to_string());
+        syn::visit::visit_item_fn(self, f);
+        self.fns.pop();
+    }
+    fn visit_impl_item_fn(&mut self, f: &'ast syn::ImplItemFn) {
+        self.fns.push(f.sig.ident.to_string());
+        syn::visit::visit_impl_item_fn(self, f);
+        self.fns.pop();
+    }
+    fn visit_expr_if(&mut self, e: &'ast syn::ExprIf) {
+        match crate::ctrl::static_cond(&e.cond) {
+            // `if LIMB_BITS == 32 { A } else { B }`: A is dropped
+            Some(false) => self.add("if", nospace(&e.then_branch.to_token_stream().to_string())),
+            Some(true) => self.add("else", e.else_branch.as_ref().map(|(_, x)| nospace(&x.to_token_stream().to_string())).unwrap_or_default()),
+            None => {}
+        }
+        syn::visit::visit_expr_if(self, e);
+    }
+    fn visit_arm(&mut self, a: &'ast syn::Arm) {
+        if let Some((_, g)) = &a.guard {
+            if crate::ctrl::static_cond(g) == Some(false) {
+                self.add("arm", nospace(&a.to_token_stream().to_string()));
+            }
+        }
+        syn::visit::visit_arm(self, a);
+    }
+}
+
+/// C-PIN32: the code that the translation drops or never reads because it belongs to the 32-bit
+/// limb configuration (rule 14 resolves `LIMB_BITS == 32` statically): (key, token text) of every
+/// dropped `if LIMB_BITS == 32` branch and guarded match arm (by enclosing function and position),
+/// of the functions `u32_to_hi64_*`, of the items under the not-64-bit `cfg`, and of the arms
+/// `@3` / `@nonzero3` of `hi!`
+pub fn dropped32(file: &syn::File) -> Vec<(String, String)> {
+    let mut d = Dropped { fns: vec![], count: HashMap::new(), out: vec![] };
+    d.visit_file(file);
+    let mut out = d.out;
+    for it in &file.items {
+        match it {
+            syn::Item::Fn(f) if f.sig.ident.to_string().starts_with("u32_to_hi64_") => {
+                out.push((format!("fn:{}", f.sig.ident), pin_text(&f.attrs, &f.vis, &f.sig, &f.block)));
+            }
+            syn::Item::Type(t) if t.attrs.iter().any(|a| attr_text(a) == NL64) => {
+                out.push((format!("cfg32:type {}", t.ident), nospace(&t.to_token_stream().to_string())));
+            }
+            syn::Item::Const(c) if c.attrs.iter().any(|a| attr_text(a) == NL64) => {
+                let text: String = c.attrs.iter().filter(|a| attr_name(a) != "doc").map(|a| nospace(&a.to_token_stream().to_string())).collect();
+                let (ty, ex) = (&c.ty, &c.expr);
+                out.push((format!("cfg32:const {}", c.ident), format!("{}const{}:{}={};", text, c.ident, nospace(&ty.to_token_stream().to_string()), nospace(&ex.to_token_stream().to_string()))));
+            }
+            syn::Item::Macro(m) if m.ident.as_ref().map(|i| i == "hi").unwrap_or(false) => {
+                // the rules `(@3 ..) => {..}` and `(@nonzero3 ..) => {..}`
+                let toks: Vec<proc_macro2::TokenTree> = m.mac.tokens.clone().into_iter().collect();
+                let mut i = 0;
+                while i + 3 < toks.len() {
+                    if let (proc_macro2::TokenTree::Group(a), proc_macro2::TokenTree::Group(b)) = (&toks[i], &toks[i + 3]) {
+                        let head = nospace(&a.stream().to_string());
+                        if head.starts_with("@3") || head.starts_with("@nonzero3") {
+                            let key = if head.starts_with("@3") { "@3" } else { "@nonzero3" };
+                            out.push((format!("macro hi:{}", key), format!("({})=>{{{}}}", head, nospace(&b.stream().to_string()))));
+                        }
+                    }
+                    i += 4;
+                    if i < toks.len() && matches!(&toks[i], proc_macro2::TokenTree::Punct(p) if p.as_char() == ';') {
+                        i += 1;
+                    }
+                }
+            }
+            _ => {}
+        }
+    }
+    out
+}
+
+pub fn check_dropped32(fname: &str, file: &syn::File) -> Vec<String> {
+    let want: Vec<(&str, &str)> = crate::pins::DROPPED32.iter().filter(|(f, _, _)| *f == fname).map(|(_, k, t)| (*k, *t)).collect();
+    if want.is_empty() && !matches!(fname, "bigint.rs" | "slow.rs" | "table_small.rs") {
+        // any other file must not have 32-bit-only code at all
+        return dropped32(file).first().map(|(k, _)| vec![format!("32-bit-only code `{}` in a file that has none today", k)]).unwrap_or_default();
+    }
+    let got = dropped32(file);
+    let mut problems = vec![];
+    for (k, t) in &want {
+        match got.iter().find(|(k2, _)| k2 == k) {
+            Some((_, t2)) if t2 == t => {}
+            Some(_) => problems.push(format!("the 32-bit-only code `{}` (dropped by rule 14, so not tied by the translation) is no longer, token for token, today's", k)),
+            None => problems.push(format!("the 32-bit-only code `{}` is missing", k)),
+        }
+    }
+    for (k, _) in &got {
+        if !want.iter().any(|(k2, _)| k2 == k) {
+            problems.push(format!("new 32-bit-only code `{}` (rule 14 would drop it unseen)", k));
+        }
+    }
+    problems
+}
